@@ -97,7 +97,7 @@ def _mk_event(sc, ev, x=''):
             "msg": "", "pay": "", "md": [], "n": 0, "t": 0, "x": x}
 
 
-def run_shard(driver, scens, workdir, name, watchdog_s=10):
+def run_shard(driver, scens, workdir, name, watchdog_s=4):
     """Runs a list of scenarios in worker processes, restarting after a crash,
     wedge or leak. Returns (trace_path, notes)."""
     scen_path = os.path.join(workdir, name + '.scen.ndjson')
@@ -129,6 +129,12 @@ def run_shard(driver, scens, workdir, name, watchdog_s=10):
             kind = 'wedged' if p.returncode == 3 else 'leak'
         else:
             kind = 'crash'
+            # the panicking goroutine's stack is printed first: a panic with no
+            # goat frame in it is a failure of the harness, not of the library
+            pm = re.search(r'^panic: ', err, re.M)
+            first = err[pm.start():].split('\n\n')[0:2] if pm else []
+            if pm and 'github.com/avos-io/goat' not in '\n'.join(first):
+                raise Inconclusive('harness panic in shard %s: %s' % (name, err[pm.start():pm.start() + 3000]))
             m = re.search(r'^panic: (.*)$', err, re.M)
             what = m.group(1)[:200] if m else 'exit %d' % p.returncode
             if not ended:
@@ -253,29 +259,35 @@ EV_GROUPS = {
 
 
 def diagnose(spec, lines, workdir):
-    """lines: the trace lines of one rejected scenario segment. Returns
-    (rejected_line_index, event, groups) where groups is the list of rule
-    groups whose disabling lets the validation get past that line."""
+    """lines: the trace lines of one rejected scenario segment. Returns the list
+    of findings [(line, event, groups)]: the first unexplainable line with the
+    rule groups whose disabling lets validation get past it, then - with those
+    groups off - the next one, so that the rest of the trace is still judged."""
     p = os.path.join(workdir, 'diag_%d_%s.ndjson' % (os.getpid(), hashlib.sha1('\n'.join(lines).encode()).hexdigest()[:10]))
     with open(p, 'w') as f:
         f.write('\n'.join(lines) + '\n')
-    rej, _ = validate_file(spec, p, workdir)
-    if not rej:
-        os.remove(p)
-        return None, None, []
-    ln = rej[0]
-    evn = json.loads(lines[ln - 1])
-    groups = []
-    cand = EV_GROUPS.get(evn.get('ev'), [])
-    if cand:
-        with cf.ThreadPoolExecutor(max_workers=len(cand)) as ex:
-            futs = {g: ex.submit(validate_file, spec, p, workdir, (g,)) for g in cand}
-            for g, fu in futs.items():
-                rej2, _ = fu.result()
-                if not rej2 or rej2[0] > ln:
-                    groups.append(g)
+    found, off = [], []
+    for _ in range(4):
+        rej, _ = validate_file(spec, p, workdir, tuple(off))
+        if not rej:
+            break
+        ln = rej[0]
+        evn = json.loads(lines[ln - 1])
+        groups = []
+        cand = [g for g in EV_GROUPS.get(evn.get('ev'), []) if g not in off]
+        if cand:
+            with cf.ThreadPoolExecutor(max_workers=len(cand)) as ex:
+                futs = {g: ex.submit(validate_file, spec, p, workdir, tuple(off + [g])) for g in cand}
+                for g, fu in futs.items():
+                    rej2, _ = fu.result()
+                    if not rej2 or rej2[0] > ln:
+                        groups.append(g)
+        found.append((ln, evn, groups))
+        if not groups:
+            break
+        off.extend(groups)
     os.remove(p)
-    return ln, evn, groups
+    return found
 
 
 def validate_traces(spec, shard_traces, workdir):
@@ -312,13 +324,15 @@ def validate_traces(spec, shard_traces, workdir):
     memo = {}
     for r in rej:
         e = r['event']
-        sig = (e.get('ev'), e.get('res'), e.get('k'), e.get('code'), e.get('x') if e.get('ev') in ('Leak', 'Wedged') else '')
+        sig = (e.get('ev'), e.get('res'), e.get('k'), e.get('code'), e.get('x') if e.get('ev') in ('Leak', 'Wedged') else '',
+               len(r['lines']) if e.get('ev') in ('SW', 'CW', 'Quiesce') else 0)
         if sig not in memo:
-            rl, evn, groups = diagnose(spec, r['lines'], workdir)
-            if rl is None:
+            found = diagnose(spec, r['lines'], workdir)
+            if not found:
                 raise Inconclusive('segment rejected in batch but accepted alone: sc=%r' % r['sc'])
-            memo[sig] = groups
-        r['groups'] = memo[sig]
+            memo[sig] = found
+        r['findings'] = [dict(line=ln, event=evn, groups=g) for ln, evn, g in memo[sig]]
+        r['groups'] = memo[sig][0][2]
     return acc, states, rej
 
 
